@@ -678,3 +678,236 @@ Proof.
   unfold delete_unreachable_code_model.
   eapply equiv_trans; [apply (proj1 (duc_sound (2 * fuel_of p)))|apply equiv_sym, fixb_equiv].
 Qed.
+
+(* ------------------------------------------------------------------------------------------ *)
+(* early_return: equivalence of function bodies up to the dead local environment *)
+Definition sim (q q' : list stmt) : Prop :=
+  forall o st r, runs o st q r -> exists r', runs o st q' r' /\ obs r = obs r'.
+Definition sim2 (q q' : list stmt) : Prop := sim q q' /\ sim q' q.
+
+Lemma sim2_obs q q' : sim2 q q' -> obs_equiv q q'.
+Proof. intros [H1 H2] o st. split; intros r Hr; [apply H1|apply H2]; exact Hr. Qed.
+
+Lemma sim_refl q : sim q q.
+Proof. intros o st r H. exists r. auto. Qed.
+
+Lemma sim_cons s q q' : sim q q' -> sim (s :: q) (s :: q').
+Proof.
+  intros H o st r Hr. apply runs_cons in Hr. destruct Hr as [[out1 st1] [H1 H2]].
+  destruct out1; simpl in H2;
+    try (subst r; eexists; split; [apply runs_cons; eexists; split; [exact H1|reflexivity]|reflexivity]).
+  destruct (H _ _ _ H2) as [r' [Hr' Ho]]. exists r'. split; [|exact Ho].
+  apply runs_cons. eexists; split; [exact H1|exact Hr'].
+Qed.
+Lemma sim2_cons s q q' : sim2 q q' -> sim2 (s :: q) (s :: q').
+Proof. intros [H1 H2]. split; apply sim_cons; assumption. Qed.
+
+Lemma runs_if_then o st t b e rest r :
+  runs o st (SIf t b e :: rest) r <->
+  runs o (snd (eval_test o st t)) ((if truthy (fst (eval_test o st t)) then b else e) ++ rest) r.
+Proof. rewrite runs_if, runs_app. tauto. Qed.
+
+Lemma er_assign_ret x r0 : sim2 [SAssign x r0; SReturn (RVar x)] [SReturn r0].
+Proof.
+  split; intros o st r Hr.
+  - apply runs_assign in Hr. apply runs_ret in Hr. subst r. eexists; split; [apply runs_ret; reflexivity|].
+    unfold obs. simpl. unfold upd. rewrite Nat.eqb_refl. reflexivity.
+  - apply runs_ret in Hr. subst r. eexists; split; [apply runs_assign, runs_ret; reflexivity|].
+    unfold obs. simpl. unfold upd. rewrite Nat.eqb_refl. reflexivity.
+Qed.
+
+Lemma er_go_sound (rec : list stmt -> option (list stmt)) x :
+  (forall bb b', rec bb = Some b' -> sim2 (bb ++ [SReturn (RVar x)]) b') ->
+  forall b b', er_go rec x b = Some b' -> sim2 (b ++ [SReturn (RVar x)]) b'.
+Proof.
+  intros Hrec. induction b as [|s l IH]; intros b' H; [discriminate|].
+  destruct l as [|s2 l2].
+  - simpl in H. destruct s; try discriminate.
+    + destruct (Nat.eqb x0 x) eqn:E; [|discriminate]. apply Nat.eqb_eq in E. subst x0.
+      inversion H; subst. apply er_assign_ret.
+    + destruct (rec body) as [b1|] eqn:Eb; [|discriminate].
+      destruct (rec orelse) as [e1|] eqn:Ee; [|discriminate]. inversion H; subst.
+      pose proof (Hrec _ _ Eb) as [Hb1 Hb2]. pose proof (Hrec _ _ Ee) as [He1 He2].
+      split; intros o st r Hr.
+      * simpl in Hr. apply runs_if_then in Hr.
+        destruct (truthy (fst (eval_test o st t))) eqn:Ev.
+        -- destruct (Hb1 _ _ _ Hr) as [r' [Hr' Ho]]. exists r'. split; [|exact Ho].
+           apply runs_single. simpl. rewrite Ev. exact Hr'.
+        -- destruct (He1 _ _ _ Hr) as [r' [Hr' Ho]]. exists r'. split; [|exact Ho].
+           apply runs_single. simpl. rewrite Ev. exact Hr'.
+      * apply runs_single in Hr. simpl in Hr.
+        destruct (truthy (fst (eval_test o st t))) eqn:Ev.
+        -- destruct (Hb2 _ _ _ Hr) as [r' [Hr' Ho]]. exists r'. split; [|exact Ho].
+           simpl. apply runs_if_then. rewrite Ev. exact Hr'.
+        -- destruct (He2 _ _ _ Hr) as [r' [Hr' Ho]]. exists r'. split; [|exact Ho].
+           simpl. apply runs_if_then. rewrite Ev. exact Hr'.
+  - change (er_go rec x (s :: s2 :: l2)) with (option_map (cons s) (er_go rec x (s2 :: l2))) in H.
+    destruct (er_go rec x (s2 :: l2)) as [tl'|] eqn:Eg; [|discriminate]. inversion H; subst.
+    simpl. apply sim2_cons. apply IH. reflexivity.
+Qed.
+
+Lemma er_block_sound n x : forall b b', er_block n x b = Some b' -> sim2 (b ++ [SReturn (RVar x)]) b'.
+Proof.
+  induction n as [|n IH]; intros b b' H; [discriminate|].
+  simpl in H. eapply er_go_sound; eauto.
+Qed.
+
+Lemma er_top_sound n : forall p, sim2 p (er_top n p).
+Proof.
+  induction p as [|s tl IH]; [split; apply sim_refl|].
+  assert (Hdef : sim2 (s :: tl) (s :: er_top n tl)) by (apply sim2_cons, IH).
+  destruct s; try exact Hdef.
+  destruct tl as [|s2 tl2]; [exact Hdef|].
+  destruct s2; try exact Hdef. destruct e; try exact Hdef. destruct tl2; [|exact Hdef].
+  simpl er_top. destruct (er_block n x [SIf t body orelse]) as [q|] eqn:E.
+  - apply (er_block_sound _ _ _ _ E).
+  - split; apply sim_refl.
+Qed.
+
+Theorem early_return_preserves p : obs_equiv p (early_return_model p).
+Proof. apply sim2_obs, er_top_sound. Qed.
+
+(* ------------------------------------------------------------------------------------------ *)
+(* early_continue: loop bodies equivalent up to Normal/Cnt at their end *)
+Definition lk_same (r1 r1' : res) : Prop :=
+  r1 = r1' \/ (snd r1 = snd r1' /\ (fst r1 = Normal \/ fst r1 = Cnt) /\ (fst r1' = Normal \/ fst r1' = Cnt)).
+Definition lbsim (b b' : list stmt) : Prop :=
+  forall o st r1, runs o st b r1 -> exists r1', runs o st b' r1' /\ lk_same r1 r1'.
+Definition lbsim2 (b b' : list stmt) : Prop := lbsim b b' /\ lbsim b' b.
+
+Lemma lk_same_sym r r' : lk_same r r' -> lk_same r' r.
+Proof. intros [->|[H1 [H2 H3]]]; [left; reflexivity|right; auto]. Qed.
+
+Lemma equiv_lbsim2 b b' : equiv b b' -> lbsim2 b b'.
+Proof.
+  intros H. split; intros o st r1 Hr; exists r1; (split; [apply H; exact Hr|left; reflexivity]).
+Qed.
+
+Lemma lbsim_loop o b b' e e' :
+  lbsim b b' -> (forall st r, runs o st e r -> runs o st e' r) ->
+  forall st lk r, lruns o st lk b e r -> lruns o st lk b' e' r.
+Proof.
+  intros Hb He. apply lruns_ind'. intros st lk r H.
+  apply lruns_unfold. destruct (loop_next o st lk) as [[go st1] lk']. destruct go; [|apply He; exact H].
+  destruct H as [r1 [H1 H2]]. destruct (Hb _ _ _ H1) as [r1' [H1' Hs]]. exists r1'. split; [exact H1'|].
+  destruct Hs as [<-|[Hst [Hn Hn']]].
+  - destruct r1 as [[] st2]; simpl in *; tauto.
+  - destruct r1 as [out1 st2], r1' as [out1' st2']. simpl in *. subst st2'.
+    destruct Hn as [->| ->]; destruct Hn' as [->| ->]; simpl; tauto.
+Qed.
+
+Lemma lbsim2_loop h b b' e e' :
+  lbsim2 b b' -> equiv e e' -> equiv [SLoop h b e] [SLoop h b' e'].
+Proof.
+  intros [H1 H2] He o st r. rewrite !runs_single. simpl. split; apply lbsim_loop; auto.
+  - intros; apply He; assumption.
+  - intros; apply He; assumption.
+Qed.
+
+Lemma lbsim_cons s s2 tl tl2 : equiv [s] [s2] -> lbsim tl tl2 -> lbsim (s :: tl) (s2 :: tl2).
+Proof.
+  intros Hs Ht o st r Hr. change (s :: tl) with ([s] ++ tl) in Hr. apply runs_app in Hr.
+  destruct Hr as [[out1 st1] [H1 H2]]. apply Hs in H1.
+  destruct out1; simpl in H2;
+    try (subst r; eexists; split;
+         [change (s2 :: tl2) with ([s2] ++ tl2); apply runs_app; eexists; split; [exact H1|reflexivity]
+         |left; reflexivity]).
+  destruct (Ht _ _ _ H2) as [r' [Hr' Hk]]. exists r'. split; [|exact Hk].
+  change (s2 :: tl2) with ([s2] ++ tl2). apply runs_app. eexists; split; [exact H1|exact Hr'].
+Qed.
+
+Lemma ec_last_inv s s' flag :
+  ec_last s = Some (s', flag) ->
+  exists t bb ee, s = SIf t bb ee /\
+    ((s' = SIf t (bb ++ [SContinue]) ee /\ flag = false) \/
+     (s' = SIf (negate t) [SContinue] bb /\ ee = [] /\ flag = true)).
+Proof.
+  unfold ec_last. destruct s; try discriminate.
+  destruct (ends_with_continue body); [discriminate|].
+  destruct ((2 <? length orelse) || existsb big_else orelse).
+  - intros H; inversion H; subst. exists t, body, orelse. auto.
+  - destruct orelse.
+    + destruct (_ && _ && true); [|discriminate]. intros H; inversion H; subst.
+      exists t, body, []. auto.
+    + rewrite andb_false_r. discriminate.
+Qed.
+
+Lemma ec_append_lbsim2 t bb ee : lbsim2 [SIf t bb ee] [SIf t (bb ++ [SContinue]) ee].
+Proof.
+  split; intros o st r Hr; apply runs_single in Hr; simpl in Hr.
+  - destruct (truthy (fst (eval_test o st t))) eqn:Ev.
+    + destruct r as [out st2]. destruct out.
+      * exists (Cnt, st2). split; [|right; simpl; auto].
+        apply runs_single. simpl. rewrite Ev. apply runs_app. eexists; split; [exact Hr|].
+        simpl. apply runs_single. reflexivity.
+      * eexists; split; [|left; reflexivity]. apply runs_single. simpl. rewrite Ev.
+        apply runs_app. eexists; split; [exact Hr|reflexivity].
+      * eexists; split; [|left; reflexivity]. apply runs_single. simpl. rewrite Ev.
+        apply runs_app. eexists; split; [exact Hr|reflexivity].
+      * eexists; split; [|left; reflexivity]. apply runs_single. simpl. rewrite Ev.
+        apply runs_app. eexists; split; [exact Hr|reflexivity].
+      * eexists; split; [|left; reflexivity]. apply runs_single. simpl. rewrite Ev.
+        apply runs_app. eexists; split; [exact Hr|reflexivity].
+    + exists r. split; [|left; reflexivity]. apply runs_single. simpl. rewrite Ev. exact Hr.
+  - destruct (truthy (fst (eval_test o st t))) eqn:Ev.
+    + apply runs_app in Hr. destruct Hr as [[out1 st1] [H1 H2]].
+      destruct out1; simpl in H2;
+        try (subst r; eexists; split; [apply runs_single; simpl; rewrite Ev; exact H1|left; reflexivity]).
+      apply runs_single in H2. simpl in H2. subst r.
+      exists (Normal, st1). split; [apply runs_single; simpl; rewrite Ev; exact H1|right; simpl; auto].
+    + exists r. split; [|left; reflexivity]. apply runs_single. simpl. rewrite Ev. exact Hr.
+Qed.
+
+Lemma ec_negate_lbsim2 t bb : lbsim2 [SIf t bb []] [SIf (negate t) [SContinue] bb].
+Proof.
+  split; intros o st r Hr; apply runs_single in Hr; simpl in Hr;
+    destruct (negate_sound t o st) as [Hv Hs].
+  - destruct (truthy (fst (eval_test o st t))) eqn:Ev.
+    + exists r. split; [|left; reflexivity]. apply runs_single. simpl. rewrite Hv, Hs. exact Hr.
+    + apply runs_nil in Hr. subst r. eexists; split; [|right; simpl; eauto].
+      * apply runs_single. simpl. rewrite Hv, Hs. simpl. apply runs_single. reflexivity.
+      * simpl. auto.
+  - rewrite Hv, Hs in Hr. destruct (truthy (fst (eval_test o st t))) eqn:Ev; simpl in Hr.
+    + exists r. split; [|left; reflexivity]. apply runs_single. simpl. rewrite Ev. exact Hr.
+    + apply runs_single in Hr. simpl in Hr. subst r. eexists; split; [|right; simpl; eauto].
+      * apply runs_single. simpl. rewrite Ev. apply runs_nil. reflexivity.
+      * simpl. auto.
+Qed.
+
+Lemma lbsim2_trans_equiv b b1 b2 : lbsim2 b b1 -> equiv b1 b2 -> lbsim2 b b2.
+Proof.
+  intros [H1 H2] He. split; intros o st r Hr.
+  - destruct (H1 _ _ _ Hr) as [r' [Hr' Hk]]. exists r'. split; [apply He; exact Hr'|exact Hk].
+  - apply He in Hr. apply H2; exact Hr.
+Qed.
+
+Lemma ec_body_sound (rec : stmt -> stmt) :
+  (forall s, equiv [s] [rec s]) -> forall b, lbsim2 b (ec_body rec b).
+Proof.
+  intros Hrec. induction b as [|s l IH]; [apply equiv_lbsim2, equiv_refl|].
+  destruct l as [|s2 l2].
+  - simpl. destruct (ec_last s) as [[s' flag]|] eqn:El; [|apply equiv_lbsim2, Hrec].
+    destruct (ec_last_inv _ _ _ El) as (t & bb & ee & -> & [[-> ->]|[-> [-> ->]]]).
+    + eapply lbsim2_trans_equiv; [apply ec_append_lbsim2|apply Hrec].
+    + apply ec_negate_lbsim2.
+  - change (ec_body rec (s :: s2 :: l2)) with (rec s :: ec_body rec (s2 :: l2)).
+    destruct IH as [I1 I2]. split.
+    + apply lbsim_cons; [apply Hrec|exact I1].
+    + apply lbsim_cons; [apply equiv_sym, Hrec|exact I2].
+Qed.
+
+Lemma map_equiv_all (F : stmt -> stmt) p : (forall s, equiv [s] [F s]) -> equiv p (map F p).
+Proof. intros H. apply map_equiv. intros; apply H. Qed.
+
+Lemma ec1_sound n : forall s, equiv [s] [ec1 n s].
+Proof.
+  induction n as [|n IH]; intros s; simpl; [apply equiv_refl|].
+  destruct s; try apply equiv_refl.
+  - apply equiv_if; apply map_equiv_all, IH.
+  - destruct h as [t|it].
+    + apply equiv_loop; apply map_equiv_all, IH.
+    + apply lbsim2_loop; [apply ec_body_sound, IH|apply map_equiv_all, IH].
+Qed.
+
+Theorem early_continue_preserves p : equiv p (early_continue_model p).
+Proof. unfold early_continue_model, ec. apply map_equiv_all, ec1_sound. Qed.
